@@ -59,6 +59,10 @@ struct Runner {
         case 'F': {
           bool r = obj.impl_.waitFor(static_cast<int>(o.a), std::chrono::duration<double>(o.b ? 1000.0 : 0.0));
           S.result("waitFor", r ? 1 : 0);
+          if (r) {   // no hook point between the return and this load: the word the successful waitFor ended on
+            S.result("wft", o.a);
+            S.result("wfw", obj.impl_.intrusiveStatus().load());
+          }
           break;
         }
         default: special(tid, o); break;
